@@ -19,7 +19,8 @@ func atoi64(s string, def int64) int64 {
 }
 
 var commands = map[string]func(args map[string]string){
-	"buffer": cmdBuffer,
+	"buffer":  cmdBuffer,
+	"channel": cmdChannel,
 }
 
 // usage: harness <driver> -k v -k v ...
